@@ -112,6 +112,8 @@ GENERATED_ONLY = {
     "c_join_fold_map": F(["kv", "kv"], "agg", heavy=True),
     "c_tee_union": F(["n"], "unord"),
 }
+for _n in ("x_across_count", "x_across_fold", "x_across_unique"):
+    GENERATED_ONLY[_n] = F(["n"], "agg" if _n != "x_across_unique" else "ord", props=("C30",))
 FLOWS.update(GENERATED_ONLY)
 
 INPUT_NAMES = "abcd"
@@ -426,7 +428,8 @@ MODELLED_NODES = {
     "Reduce": "AReduce / BReduce", "ReduceKeyed": "AReduceKeyed / BReduceKeyed",
     # tick level (C30)
     "DeferTick": "BDefer", "Sort": "BSort", "CrossSingleton": "BCrossSingleton",
-    "CycleSource": "loop_run (tick cycle)", "Scan": "BGen (generator: first / limit)",
+    "CycleSource": "loop_run (tick cycle)", "Scan": "SGen / BGen (generator: first / limit)",
+    "Tee": "shared subterm duplicated (translator), structural tee()",
 }
 
 
@@ -868,6 +871,14 @@ def tr_s(x):
         return "(SSrc %d)" % _src_index(v)
     if k in ("ObserveNonDet", "AssertIsConsistent"):
         return tr_s(v["inner"])
+    if k == "YieldConcat" and _is_tick(_node(v["inner"])[1]):
+        # all_ticks_atomic inside across_ticks: the batches, seen again as one top-level stream
+        return tr_s(v["inner"])
+    if k == "Batch":
+        ik, iv = _node(v["inner"])
+        if ik != "Source":
+            raise Untranslatable("batch of a computed collection under across_ticks")
+        return "(SSrc %d)" % _src_index(iv)
     if k == "Cast":
         inner = v["inner"]
         ik, iv = _node(inner)
@@ -1004,6 +1015,9 @@ def translate_flow(ir):
         z = zv["inner"]
         zk, zv = _node(z)
     if zk == "Batch" and _node(zv["inner"])[0] != "Source" and not _is_tick(_node(zv["inner"])[1]):
+        ik, iv = _node(zv["inner"])
+        if _ck(iv)[0] in ("Stream", "KeyedStream"):
+            return "FS", "(FS %s)" % tr_s(zv["inner"]), _order(iv) == "TotalOrder"
         return "FA", "(FA %s)" % tr_a(zv["inner"]), None
     return "B", tr_b(y), expected
 
